@@ -30,7 +30,7 @@ def check(ctx, m, cfg, props_sel, rule="R-CFORM", funcs=None):
         ("getNumCells", ["C03"], _getNumCells), ("cellToChildrenSize", ["C04", "C13", "C06"], _cellToChildrenSize),
         ("gridPathCellsSize", ["C14"], _gridPathCellsSize), ("maxFaceCount", ["C19"], _maxFaceCount),
         ("maxGridDiskSize", ["C05", "C12"], _maxGridDiskSize), ("validateChildPos", ["C13", "C01"], _validateChildPos),
-        ("child-count arithmetic stays 64-bit", ["C13", "C04", "C03"], _narrow), ("cellArea units", ["C08"], _areaUnits), ("edgeLength units", ["C10"], _edgeUnits),
+        ("child-count arithmetic stays 64-bit", ["C13", "C04", "C03", "C12"], _narrow), ("cellArea units", ["C08"], _areaUnits), ("edgeLength units", ["C10"], _edgeUnits),
     ]
     n = 0
     for name, props, fn in insts:
